@@ -94,6 +94,9 @@ def diff_side(ctx, prop, lines):
     for line, i, m in zip(lines, i_out, m_out):
         mm, ss = split_ms(m)
         cases.append({"input": line, "impl": i, "model": mm, "spec": ss})
+    # optional second pass (e.g. the S column recomputed under what the implementation itself reported): may rewrite cases
+    if hasattr(prop, "respec"):
+        prop.respec(ctx, cases)
     return cases
 
 
